@@ -182,3 +182,19 @@ Proof. exact live_idle_connection_has_its_window. Qed.
 
 Theorem C13_source_inflight_decrements_live_counter : NW.Gen.Headroom.inflight_decrements_live_counter = true.
 Proof. reflexivity. Qed.
+
+(* ---------- interleaved semantics (Model/Conc.v): every schedule of suspended requests, disconnects, time-outs ---------- *)
+From Coq Require Import List NArith.
+From NW Require Import Model.Conc Proofs.ConcDefs Proofs.ConcEv Proofs.ConcInv Proofs.ConcSmall Proofs.ConcMore Proofs.ConcProgress Proofs.ConcSource Gen.ConcFlags.
+Import ListNotations.
+Local Open Scope N_scope.
+
+Theorem C13_conc_always_drains :
+  forall (cf : ccfg) (es : list ev),
+    fixed cf ->
+    exists es' : list ev, runs_only es' /\ quiescent (fst (crun cf (cstate_after cf es) es')).
+Proof. exact conc_always_drains. Qed.
+
+Theorem C13_source_segment_layout :
+  forallb snd conc_source_shape = true.
+Proof. exact source_segment_layout. Qed.
